@@ -142,6 +142,8 @@ def gen_mask_calls(rng, d, n, groups=None, yshape=None):
     mask = [[0] * n for _ in range(d)]
     calls = []
     d2 = yshape[1] if yshape and len(yshape) == 2 else None
+    if yshape is not None and len(yshape) == 0:
+        d2 = None
     for _ in range(rng.randint(0, 3)):
         if d2 is not None and rng.random() < 0.7:
             i_ = rng.randrange(yshape[0])
@@ -152,7 +154,7 @@ def gen_mask_calls(rng, d, n, groups=None, yshape=None):
                 j_ = rng.randrange(d2)
                 rows = [i_ * d2 + j_]                                # one entry
                 tsel = {'t': [i_, j_]}
-        elif d2 is None and d > 1 and rng.random() < 0.6:
+        elif d2 is None and d > 1 and rng.random() < 0.6 and (yshape is None or len(yshape) == 1):
             a = rng.randrange(d)
             b = rng.randint(a + 1, d)
             rows = list(range(a, b))
@@ -182,7 +184,9 @@ def gen_combo(rng, cfg, kind):
     arrays = [['z', 0, n1]] + ([['w', n1, n]] if n1 < n else [])
     d = rng.randint(1, 3)
     yshape = [d]
-    if rng.random() < 0.3:
+    if d == 1 and rng.random() < 0.35:
+        yshape = []                                                 # a decision of shape ()
+    elif rng.random() < 0.3:
         yshape = rng.choice([[2, 2], [2, 3], [3, 2], [1, 3]])       # 2-D decision / decision rule
         d = yshape[0] * yshape[1]
     integer_y = kind == 'dro' and rng.random() < 0.2
@@ -219,6 +223,8 @@ def gen_combo(rng, cfg, kind):
         return e
 
     def yentry(i):
+        if len(yshape) == 0:
+            return ['v', 'y']
         if len(yshape) == 1:
             return ['i', ['v', 'y'], i]
         r_, c_ = divmod(i, yshape[1])
@@ -588,7 +594,11 @@ def gen_cvx_atoms(rng, d):
 
 
 def _yent(y, i, case):
-    ys = case.get('yshape') or [case['d']]
+    ys = case.get('yshape')
+    if ys is None:
+        ys = [case['d']]
+    if len(ys) == 0:
+        return y
     if len(ys) == 1:
         return y[i]
     return y[divmod(i, ys[1])]
@@ -986,6 +996,39 @@ def _check_solved(case, it, w, viol, stats, probe, props):
     except Exception as e:
         viol('C12', 'readback-raises', 'affine expression evaluation raised %r' % (e,), exc=type(e).__name__)
         return
+    # y(z.assign(v)) = intercept + coefficients . v, with the intercept from y() and the coefficients from y.get(.), for a
+    # common realisation and for scenario-wise realisations (z.assign(values, sw=True)); other random arrays count as zero
+    if any(sum(r_) for r_ in ex['mask']):
+        stats['checks_c12'] += 1
+        try:
+            import pandas as pd
+            an0, lo0, hi0 = arrays_[0]
+            got = it.env['y'](zobj.assign(zv[:n1_]))
+            rows_v, _ = _series_to_rows(got, S)
+            for s in range(S):
+                coef = np.nan_to_num(mats[s][:, lo0:hi0])
+                want = rows_c[s] + coef @ zv[:n1_]
+                if np.max(np.abs(rows_v[s] - want)) > vtol * 10:
+                    viol('C12', 'rule-eval', 'y(z.assign(%s)) = %s at label %r, but y() + y.get(z) @ v = %s'
+                         % (list(zv[:n1_]), rows_v[s], labels[s], want))
+                    return
+            if case['kind'] == 'combo-dro':
+                vals = [zv[:n1_] * (s + 1.0) for s in range(S)]
+                got = it.env['y'](zobj.assign(np.array(vals), sw=True))        # one row per scenario
+                rows_v, _ = _series_to_rows(got, S)
+                for s in range(S):
+                    coef = np.nan_to_num(mats[s][:, lo0:hi0])
+                    want = rows_c[s] + coef @ vals[s]
+                    if np.max(np.abs(rows_v[s] - want)) > vtol * 10:
+                        viol('C12', 'rule-eval-scenariowise' + ('-single-event' if len(ex['py']) == 1 else ''),
+                             'y(z.assign(values, sw=True)) = %s at label %r (realisation %s), '
+                             'but y() + y.get(z) @ v = %s' % (rows_v[s], labels[s], [float(v_) for v_ in vals[s]], want),
+                             tags=['scenariowise_realisation_single_event'] if len(ex['py']) == 1 else [])
+                        if len(ex['py']) == 1:
+                            break                  # recorded finding K8: keep checking the rest
+                        return
+        except Exception as e:
+            viol('C12', 'rule-eval-raises', 'y(z.assign(...)) raised %r' % (e,), exc=type(e).__name__, tags=['rule_eval_' + case['kind']])
     try:
         for i in range(d):
             expr = _yent(it.env['y'], i, case)
